@@ -1472,7 +1472,37 @@ fn mine_chunk(rng: &mut Rng, events: usize, out: &mut dyn Write) {
             }
             sq[i] = l;
         }
-        let stm = if rng.chance(1, 2) { b'w' } else { b'b' };
+        let mut stm = if rng.chance(1, 2) { b'w' } else { b'b' };
+        // template (one try in six): the side to move has its king on the rank of a just-pushed enemy pawn, its own pawn
+        // beside that pawn and an enemy rook or queen further along the rank - the en-passant capture would open the rank
+        if rng.chance(1, 6) {
+            let white_to_move = rng.chance(1, 2);
+            stm = if white_to_move { b'w' } else { b'b' };
+            let rank = if white_to_move { 4usize } else { 3usize };
+            let (own_k, own_p, en_p, en_r) = if white_to_move { (b'K', b'P', b'p', [b'r', b'q'][rng.below(2)]) } else { (b'k', b'p', b'P', [b'R', b'Q'][rng.below(2)]) };
+            // clear that rank and the two ranks behind the pushed pawn, remove the old king of the side to move
+            for i in 0..64 {
+                if sq[i] == own_k || i / 8 == rank {
+                    sq[i] = b'.';
+                }
+            }
+            let kf = if rng.chance(1, 2) { 0usize } else { rng.below(3) };
+            let pf = kf + 1 + rng.below(3);
+            let ef = if rng.chance(1, 2) { pf + 1 } else { pf - 1 };
+            let rf = (pf.max(ef) + 1 + rng.below(3)).min(7);
+            if ef > kf && ef != pf && rf > pf.max(ef) {
+                let flip = rng.chance(1, 2);
+                let m = |f: usize| if flip { 7 - f } else { f };
+                sq[rank * 8 + m(kf)] = own_k;
+                sq[rank * 8 + m(pf)] = own_p;
+                sq[rank * 8 + m(ef)] = en_p;
+                sq[rank * 8 + m(rf)] = en_r;
+                let behind1 = if white_to_move { (rank + 1) * 8 + m(ef) } else { (rank - 1) * 8 + m(ef) };
+                let behind2 = if white_to_move { (rank + 2) * 8 + m(ef) } else { (rank - 2) * 8 + m(ef) };
+                sq[behind1] = b'.';
+                sq[behind2] = b'.';
+            }
+        }
         // en-passant state where a double push is plausible: pushed pawn on its fourth rank, the two squares behind it
         // empty, an enemy pawn beside it
         let mut epfile: i64 = -1;
